@@ -45,6 +45,7 @@ def machine_spec(svc_kind: str):
             ["GO", [{"target": ["work"], "actions": []}]],
             ["SPAWN", [{"target": None, "actions": [{"k": "raw", "cfg": {"type": "spawn_kid"}}]}]],
             ["DSEND", [{"target": None, "actions": [{"k": "raise", "event": "LATE", "delay": 60, "id": "ds"}]}]],
+            ["DSEND2", [{"target": None, "actions": [{"k": "raise", "event": "LATE", "delay": 70}]}]],
             ["LATE", [{"target": None, "actions": []}]],
             ["FIN", [{"target": ["fin"], "actions": []}]],
             ["BAD", [{"target": ["bad"], "actions": []}]],
@@ -65,7 +66,7 @@ def machine_spec(svc_kind: str):
     return spec
 
 
-EVENTS = ["GO", "SPAWN", "DSEND", "FIN", "BAD", "STOPWORK", "SLOW", "GO", "SPAWN", "PINGX"]
+EVENTS = ["GO", "SPAWN", "DSEND", "DSEND2", "FIN", "BAD", "STOPWORK", "SLOW", "GO", "SPAWN", "PINGX"]
 
 
 def plan(tier):
@@ -195,6 +196,11 @@ def check_case(case) -> CaseResult:
                 nontrivial = True
                 if acts or recvs:
                     res.violate(f"{engine}|second-stop-did-something", {"acts": [a[1] for a in acts][:4]})
+            # census at the moment stop() has returned (not after the pending delays have run out)
+            live = [n for n in (o.extra.get("live_after_stop") or []) if not str(n).startswith("actor-")]
+            if live and st_ == "stopped":
+                kinds = sorted({str(n).split("-")[0].split(".")[-1][:24] for n in live})
+                res.violate(f"{engine}|alive-when-stop-returned|{'+'.join(kinds)}|{sched_tag}", {"live": [str(n)[:50] for n in live][:5], "i": i})
         if op[0] in ("send", "batch") and any(e[0] == "aexec" and e[1] == "spawn_kid" for e in o.log):
             spawned = True
         # ---- after stop nothing is delivered
